@@ -20,6 +20,9 @@
 (*   "typ", "payload"): the returned compact token is decoded here (JWS.tla, RFC 7515       *)
 (*   section 7.1): its protected header must carry exactly that type header and its         *)
 (*   payload must be that caller's claims - not those of a call running at the same time.   *)
+(*   {"ev":"intact","buf":..,"before":hex,"after":hex}   a buffer that ALL goroutines passed as input at   *)
+(*        the same time (shared-buffer phase), compared with its content before the phase: the library     *)
+(*        may only read its inputs                                                                          *)
 (*   {"ev":"race","where":..}                a report of the Go race detector attached to  *)
 (*        the same run: the no-data-race clause (decided by the detector, recorded here)   *)
 EXTENDS JWS, FiniteSets, Json, IOUtils, TLC
@@ -108,6 +111,9 @@ Next ==
               /\ UNCHANGED alone
          [] e.ev = "end" ->
               /\ bad' = IF DOMAIN open = {} THEN <<>> ELSE <<"coverage: randomized results without alone inverse", ToString(Cardinality(DOMAIN open))>>
+              /\ UNCHANGED <<alone, open>>
+         [] e.ev = "intact" ->
+              /\ bad' = IF e.before = e.after THEN <<>> ELSE <<"an input buffer shared by the goroutines was modified by the library", e.buf>>
               /\ UNCHANGED <<alone, open>>
          [] e.ev = "race" ->
               /\ bad' = <<"data race reported by the Go race detector", e.where>>
